@@ -1,0 +1,34 @@
+//go:build verif
+
+package marching
+
+// Verification hook (build tag `verif` only; add-only, nothing in the package
+// refers to it). It hands the marching-cubes lookup tables that
+// marchFloat1BlockPosition actually indexes to the model-based verification
+// harness, so that the specification is checked against the table that is
+// compiled into the package rather than against a transcription of it.
+
+// VerifTables is a deep copy of the package's lookup tables.
+type VerifTables struct {
+	// Triangulation is `triangulation`: 256 rows of cube-edge ids, -1 terminated.
+	Triangulation [][]int
+	// CornerA / CornerB are `cornerIndexAFromEdge` / `cornerIndexBFromEdge`.
+	CornerA []int
+	CornerB []int
+	// SectionSize is `marchingSectionSize` (samples per storage block and axis).
+	SectionSize int
+}
+
+// VerifExportTables returns copies of the tables used by the marcher.
+func VerifExportTables() VerifTables {
+	t := VerifTables{
+		Triangulation: make([][]int, len(triangulation)),
+		CornerA:       append([]int{}, cornerIndexAFromEdge...),
+		CornerB:       append([]int{}, cornerIndexBFromEdge...),
+		SectionSize:   marchingSectionSize,
+	}
+	for i, row := range triangulation {
+		t.Triangulation[i] = append([]int{}, row...)
+	}
+	return t
+}
